@@ -264,6 +264,7 @@ func (e *Exec) callFuncValue(st *State, fr *Frame, d *Deferred, f *Term, k contF
 	short := strings.ReplaceAll(strings.ReplaceAll(key, pkgTD, "testdirectory"), pkgGldap, "gldap")
 	if c, ok := e.db.ftypes[short]; ok {
 		e.usedCtr["functype "+short] = true
+		e.checkCallerNoLocks(st, fr, d.site, c)
 		return e.applyContract(st, fr, d.site, c, nil, append([]Val{f}, d.args...), k)
 	}
 	if h, ok := externs["functype:"+key]; ok {
